@@ -39,6 +39,8 @@ func main() {
 		runRuntime(checkC03())
 	case "C04":
 		runRuntime(checkC04())
+	case "C05":
+		runRuntime(checkC05())
 	case "gen-sample":
 		// debugging aid: print the DSL of a few specs
 		run := vc.New("sample")
